@@ -48,3 +48,34 @@ pub fn part(cap: usize, n: usize, others: &[&ML]) -> (Lru, ML) {
     let l = fill(&mut c, n, others);
     (c, l)
 }
+
+/// Concrete-key variant (DESIGN 2.4, pattern enumeration): keys are the constants base, base+1, ..
+/// (values stay symbolic).  Sound for the generic cache code by parametricity in `K: Hash + Eq`.
+pub fn part_conc(cap: usize, n: usize, base: u8) -> (Lru, ML) {
+    let mut c: Lru = RawLRU::with_hasher(cap, DefaultHashBuilder::default()).unwrap();
+    let mut m = ML::new();
+    let mut i = 0;
+    while i < n {
+        let k = base + i as u8;
+        let v: u8 = kani::any();
+        let _ = c.put(k, v);
+        m.push_front(k, v);
+        i += 1;
+    }
+    (c, m)
+}
+
+/// The operation key for pattern `pat` over lists of lengths `ns` whose keys start at `bases`:
+/// pat < sum(ns) selects a stored key (in list order), pat == sum(ns) a key stored nowhere.
+pub fn pattern_key(pat: usize, ns: &[usize], bases: &[u8]) -> u8 {
+    let mut off = 0;
+    let mut i = 0;
+    while i < ns.len() {
+        if pat < off + ns[i] {
+            return bases[i] + (pat - off) as u8;
+        }
+        off += ns[i];
+        i += 1;
+    }
+    200
+}
